@@ -153,7 +153,7 @@ check("C17", "fallback-tag referrers converted without loss, repeatably", "explo
       "Trusted: the layout generator's expectation (union of listed descriptors whose manifest exists and names the subject, recomputed from the manifests); process-crash model of the vfs shim "
       "(no loss of un-synced pages); pre-existing converted responses are generated accurate only.",
       "DESIGN.md §3 C17",
-      [R("^TestC17$", 300, 8000, timeout=(900, 3300))], variant="vfs")
+      [R("^TestC17$", 600, 8000, shards=(8, 16), timeout=(900, 3300))], variant="vfs")
 
 check("C14", "read-only stores and disabled APIs change nothing", "exploration",
       "rapid generator of pre-built roots (healthy/legacy/corrupt) x switch combinations x request mixes; oracle = byte/mtime-exact snapshot of the root and its parent + status class per switch + read sweep",
